@@ -65,6 +65,7 @@ pub struct Scen {
 	pub sched: bool,
 	pub wp: bool,
 	pub ra: bool,
+	pub yr: bool,
 	pub schedule: Vec<usize>,
 	pub pct: Option<(Vec<usize>, Vec<usize>)>, // priority scheduling: thread priorities (highest first), demotion steps
 	pub hist: Vec<(usize, Op)>,
@@ -172,6 +173,9 @@ pub fn parse(lines: &[String]) -> Scen {
 			}
 			"ra" => {
 				sc.ra = true;
+			}
+			"yr" => {
+				sc.yr = true;
 			}
 			"mode" => {
 				if t[1] == "sched" {
@@ -520,6 +524,7 @@ pub fn build_world(sc: &Scen) -> World {
 		c.sched = sc.sched;
 		c.wp = sc.wp;
 		c.ra = sc.ra;
+		c.yr = sc.yr;
 	}
 	// address ranks over leaves and owned units
 	let mut all: Vec<(usize, bool, usize)> = vec![];
